@@ -10,6 +10,7 @@
 From Coq Require Import String Ascii List NArith ZArith Bool.
 From Shovel Require Import Base.Outcome Model.Hex Model.Filter Model.Rows
      Proofs.FilterP Proofs.RowsP Proofs.C11P.
+From Shovel Require Model.AbiType Model.AbiScan Model.AbiEnc Model.AbiParse Model.RowsAbi Proofs.RowsAbiP.
 Import ListNotations.
 Open Scope N_scope.
 
@@ -204,3 +205,72 @@ Example ex_int8 : cell_of (dbtype fixed (s2b "int8")
 Proof. vm_compute. reflexivity. Qed.
 Example ex_int256_min : cell_of (dbtype fixed (s2b "int256") (Some (word_of_Z (- Z.of_N two255)))) = CInt (- Z.of_N two255).
 Proof. vm_compute. reflexivity. Qed.
+
+(* ---- composed with the decoder model of C09/C10 (Model/RowsAbi.v) ----------
+   [with_scan d l] is the log with its decoded rows computed by the ABI model:
+   Event.ABIType (Model/AbiParse.v) on the declaration's type strings, then
+   Result.Scan (Model/AbiScan.v) on the log's data.  [tin] is an input whose
+   type string is the print of an elementary name with array suffixes; [enc]
+   is the independent Solidity ABI encoding of Model/AbiEnc.v. *)
+Import Model.AbiType Model.AbiScan Model.AbiEnc Model.AbiParse Model.RowsAbi Proofs.RowsAbiP.
+
+(* From VALUES to CELLS.  Declaration: any number and order of inputs, indexed
+   or not, selected or not, of any elementary type with any array suffixes --
+   restricted ([e2e_dom]) to: every SELECTED non-indexed input is a scalar, except
+   at most one, which is a one-level array T[] or T[k]; no tuple components.
+   Log: topics pass the gate, data = enc(values) followed by anything.  Then
+   processLog (decoder inside the model) builds one candidate row per element of
+   the selected array (one if it is empty or there is none), emits the accepted
+   ones in order, and candidate i holds, column by column ([row_spec_v]): for a
+   data input the typed value of ITS OWN VALUE (element i of the array), taken
+   from the values, not from bytes; for an indexed input its own topic; for
+   block data the enclosing item's field; abi_idx = i. *)
+Theorem log_rows_end_to_end : forall d xs vs rest dbs e l rows,
+  d_inputs d = map tin_input xs -> e2e_dom xs false = true ->
+  Forall2 has_type (decl_fields (map tin_jty xs) 0) vs ->
+  l_data l = enc (tins_type xs) (VTuple vs) ++ rest -> l_data l <> [] ->
+  N.of_nat (length (l_data l)) < 2 ^ 63 ->
+  gate d l = true ->
+  process_log fixed d dbs e (with_scan d l) = Ok rows ->
+  exists cands,
+    length cands = arr_rows xs vs /\ rows = concat (map emit cands) /\
+    forall i c, nth_error cands i = Some c -> row_spec_v d xs vs e l i (fst c).
+Proof. exact end_to_end. Qed.
+Print Assumptions log_rows_end_to_end.
+
+(* for EVERY elementary-based declaration (no domain restriction): the decoder
+   type the model derives is the one the declaration denotes, it is in the
+   domain of C09's row rule, and the model's decoding of a well-formed encoding
+   is the row rule on the values *)
+Theorem declared_type_parsed : forall d xs,
+  d_inputs d = map tin_input xs -> abi_ty d = Ok (tins_type xs) /\ dom (tins_type xs) = true.
+Proof. intros d xs E. split; [exact (abi_ty_tins d xs E)|exact (dom_tins xs)]. Qed.
+Print Assumptions declared_type_parsed.
+
+Theorem model_decodes_encodings : forall d xs v rest,
+  d_inputs d = map tin_input xs -> has_type (tins_type xs) v ->
+  N.of_nat (length (enc (tins_type xs) v ++ rest)) < 2 ^ 63 ->
+  scan_rows d (enc (tins_type xs) v ++ rest) = Ok (rows_spec (count tin_data xs) (tins_type xs) v).
+Proof. exact scan_rows_enc. Qed.
+Print Assumptions model_decodes_encodings.
+
+(* end to end: E(uint256 indexed a [no column], uint8 indexed b, uint16[] xs, string s), all but a
+   selected; values xs = [7; 300], s = "hi"; trailing garbage after the encoding *)
+Definition ex_tins : list tin :=
+  [ {| tn_indexed := true; tn_name := EUint 256; tn_dims := []; tn_column := []; tn_filter := no_filter |};
+    {| tn_indexed := true; tn_name := EUint 8; tn_dims := []; tn_column := s2b "b"; tn_filter := no_filter |};
+    {| tn_indexed := false; tn_name := EUint 16; tn_dims := [0]; tn_column := s2b "xs"; tn_filter := no_filter |};
+    {| tn_indexed := false; tn_name := EString; tn_dims := []; tn_column := s2b "s"; tn_filter := no_filter |} ].
+Definition ex_vals : list aval := [VArr [VWord (word_of_N 7); VWord (word_of_N 300)]; AbiEnc.VBytes [104; 105]].
+Definition ex_decl : decl :=
+  {| d_name := s2b "ig"; d_inputs := map tin_input ex_tins;
+     d_block := [{| bd_name := s2b "abi_idx"; bd_column := s2b "abi_idx"; bd_filter := no_filter |}];
+     d_table_cols := [s2b "b"; s2b "xs"; s2b "s"; s2b "abi_idx"]; d_agg := []; d_sighash := [7] |}.
+Definition ex_log : logr :=
+  {| l_idx := 0; l_addr := Some []; l_topics := [[7]; word_of_N 1; word_of_N 2];
+     l_data := enc (tins_type ex_tins) (VTuple ex_vals) ++ [1; 2; 3]; l_scan := Panic |}.
+Example ex_end_to_end :
+  e2e_dom ex_tins false = true /\ gate ex_decl ex_log = true /\
+  process_log fixed ex_decl [] (mk_env w_ctx ex_decl w_block w_tx (Some ex_log) None) (with_scan ex_decl ex_log)
+  = Ok [[VU256 2; VU256 7; VStr [104; 105]; VInt 0]; [VU256 2; VU256 300; VStr [104; 105]; VInt 1]].
+Proof. repeat split; vm_compute; reflexivity. Qed.
